@@ -11,7 +11,7 @@
 From Coq Require Import List String Bool Floats NArith.
 From PintV Require Import Common.Bytes Gen.C04 Model.PromQL Model.Source Model.PromSem Model.PromFrag Model.PromAlways
   Proofs.C04_lists Proofs.C04_transfer Proofs.C04_walk Proofs.C04_sound Proofs.C04_calls Proofs.C04_binops Proofs.C04_main
-  Proofs.C12_musthave Proofs.C12_join Proofs.C12_always Proofs.C12_static Proofs.C12_witness.
+  Proofs.C12_musthave Proofs.C12_join Proofs.C12_always Proofs.C12_static Proofs.C12_witness Proofs.C12_flag.
 Import ListNotations.
 Open Scope string_scope.
 Open Scope list_scope.
@@ -106,6 +106,59 @@ Proof.
   rewrite (or_on_empty_rhs_dead db rb vm l Cl Cr R Hon Ha HSl Hb), Hs. reflexivity.
 Qed.
 Print Assumptions C12_or_on_partial.
+
+(** (3'), (4') The same two verdicts stated with the analyser's OWN condition instead of the verified guard.
+    source.go marks the left hand side of [l unless on() r] dead exactly when some result branch of [r] has
+    AlwaysReturns and is not conditional ([C12_unless_flag]); on the syntactic complement of known finding K7
+    ([k7_free_vec]: no vector/vector operation, clamp, topk/bottomk, and only functions with an exact rule) that
+    condition implies that every admitted result of [r] is non-empty ([C12_analyser_always_sound]), so the verdict
+    is true ([C12_unless_on_analyser], [C12_or_on_analyser]).  Since fix f3c0f95 this covers [absent()]
+    operands: their branches never have AlwaysReturns. *)
+Theorem C12_unless_flag : forall rb vm s rc rs0,
+  s_dead s = false ->
+  s_dead (fst (mtm_step OUnless rb vm (s, rc) rs0)) = vm_on_empty vm && s_always rs0 && negb (s_cond rs0).
+Proof.
+  intros rb vm s rc rs0 Hd. unfold mtm_step.
+  assert (Hm : s_always (mark_join s rs0 vm) = s_always rs0 /\ s_cond (mark_join s rs0 vm) = s_cond rs0).
+  { unfold mark_join. destruct (can_join s rs0 vm); split; reflexivity. }
+  destruct Hm as [Ha Hc]. rewrite Ha, Hc. cbn [fst s_dead set_unless].
+  destruct (vm_on_empty vm && s_always rs0 && negb (s_cond rs0)); [reflexivity | exact Hd].
+Qed.
+Print Assumptions C12_unless_flag.
+
+Theorem C12_analyser_always_sound : forall fmod fpow db e s R,
+  k7_free_vec e = true -> In s (walk_node fmod fpow e) -> s_always s = true -> s_cond s = false ->
+  Sem db e R -> exists R0, R = RVec R0 /\ R0 <> [].
+Proof.
+  intros fmod fpow db e s R Hk Hin Ha Hc HS.
+  destruct (analyser_always_ne fmod fpow e Hk) as [_ H]. exact (always_ne_sound db e (H s Hin Ha Hc) R HS).
+Qed.
+Print Assumptions C12_analyser_always_sound.
+
+Theorem C12_unless_on_analyser : forall fmod fpow db rb vm l r Cl Cr R rs,
+  on_empty vm = true -> k7_free_vec r = true ->
+  In rs (walk_node fmod fpow r) -> s_always rs = true -> s_cond rs = false ->
+  Sem db r (RVec Cr) ->
+  local db (EBin OUnless rb (Some vm) l r) [RVec Cl; RVec Cr] (RVec R) = Some true -> R = [].
+Proof.
+  intros fmod fpow db rb vm l r Cl Cr R rs Hon Hk Hin Ha Hc HSr Hloc.
+  destruct (analyser_always_ne fmod fpow r Hk) as [_ H].
+  exact (C12_unless_on_partial db rb vm l r Cl Cr R Hon (H rs Hin Ha Hc) HSr Hloc).
+Qed.
+Print Assumptions C12_unless_on_analyser.
+
+Theorem C12_or_on_analyser : forall fmod fpow db rb vm l r Cl Cr R ls,
+  on_empty vm = true -> k7_free_vec l = true ->
+  In ls (walk_node fmod fpow l) -> s_always ls = true -> s_cond ls = false ->
+  Sem db l (RVec Cl) ->
+  local db (EBin OOr rb (Some vm) l r) [RVec Cl; RVec Cr] (RVec R) = Some true ->
+  local db (EBin OOr rb (Some vm) l r) [RVec Cl; RVec []] (RVec R) = Some true.
+Proof.
+  intros fmod fpow db rb vm l r Cl Cr R ls Hon Hk Hin Ha Hc HSl Hloc.
+  destruct (analyser_always_ne fmod fpow l Hk) as [_ H].
+  exact (C12_or_on_partial db rb vm l r Cl Cr R Hon (H ls Hin Ha Hc) HSl Hloc).
+Qed.
+Print Assumptions C12_or_on_analyser.
 
 (** ** Refutations of the unguarded statement (results = the vendored engine's on a db_total database) *)
 
@@ -205,6 +258,7 @@ Example C12_nonvacuous :
    hd RErr ok_join_rs = RVec []) /\
   (certified ok_unless_db ok_unless_e ok_unless_rs = true /\ forallb s_dead (walk0 ok_unless_e) = true /\
    match ok_unless_e with EBin _ _ (Some vm) _ r => on_empty vm && always_ne r | _ => false end = true /\
+   match ok_unless_e with EBin _ _ _ _ r => k7_free_vec r && forallb (fun s => s_always s && negb (s_cond s)) (walk0 r) | _ => false end = true /\
    hd RErr ok_unless_rs = RVec []) /\
   (certified ok_static_db ok_static_e ok_static_rs = true /\ forallb s_dead (walk0 ok_static_e) = true /\
    match ok_static_e with EBin op _ vm l r =>
